@@ -1,102 +1,907 @@
+// C13: remote (HTTP) and command caches store complete artifacts or nothing.
+// Implementation side of the correspondence + a model-independent property oracle.
+//
+// Every scenario is: build an output tree (possibly with a read fault at one position), Store it
+// through the real httpCache / cmdCache (possibly with a transport fault), empty the output
+// directory, Retrieve (possibly with a transport fault) and look at what came back.
 package main
 
 import (
+	"archive/tar"
 	"bytes"
 	"compress/gzip"
+	"encoding/hex"
 	"fmt"
 	"io"
+	"net"
 	"net/http"
 	"net/http/httptest"
 	"os"
 	"path/filepath"
+	"sort"
+	"strings"
 	"sync"
 	"time"
 
 	gologging "gopkg.in/op/go-logging.v1"
 
+	"verifharness/lib"
+
 	"github.com/thought-machine/please/src/cache"
 	"github.com/thought-machine/please/src/core"
 )
 
-func main() {
-	gologging.SetLevel(gologging.CRITICAL, "plz")
-	dir, _ := os.MkdirTemp("", "c13-proto-")
-	defer os.RemoveAll(dir)
-	os.Chdir(dir)
-	var mu sync.Mutex
-	blobs := map[string][]byte{}
-	srv := httptest.NewServer(http.HandlerFunc(func(w http.ResponseWriter, r *http.Request) {
-		mu.Lock()
-		defer mu.Unlock()
-		switch r.Method {
-		case http.MethodPut:
-			b, err := io.ReadAll(r.Body)
-			if err != nil {
-				w.WriteHeader(400)
-				return
+// ---------------------------------------------------------------------------------------------
+// output trees
+
+type tnode struct {
+	Kind     string   `json:"kind"` // file | link | dir | sock | missing
+	Name     string   `json:"name"` // relative to the target's output directory
+	Byte     byte     `json:"byte,omitempty"`
+	Size     int      `json:"size,omitempty"` // file: Size copies of Byte ...
+	Text     string   `json:"text,omitempty"` // ... or this literal content
+	Target   string   `json:"target,omitempty"`
+	Children []*tnode `json:"children,omitempty"`
+}
+
+func (t *tnode) content() []byte {
+	if t.Text != "" || t.Size == 0 {
+		return []byte(t.Text)
+	}
+	return bytes.Repeat([]byte{t.Byte}, t.Size)
+}
+
+func (t *tnode) healthy() bool {
+	switch t.Kind {
+	case "file", "link":
+		return true
+	case "dir":
+		for _, c := range t.Children {
+			if !c.healthy() {
+				return false
 			}
-			blobs[r.URL.Path] = b
-		case http.MethodGet:
-			b, ok := blobs[r.URL.Path]
-			if !ok {
-				w.WriteHeader(404)
-				return
-			}
-			w.Write(b)
 		}
-	}))
-	defer srv.Close()
-	hc, err := cache.VerifNewHTTPCache(srv.URL, true, 0, 5*time.Second)
+		return true
+	}
+	return false
+}
+
+func (t *tnode) clone() *tnode {
+	c := *t
+	c.Children = nil
+	for _, ch := range t.Children {
+		c.Children = append(c.Children, ch.clone())
+	}
+	return &c
+}
+
+func (t *tnode) each(f func(*tnode)) {
+	f(t)
+	for _, c := range t.Children {
+		c.each(f)
+	}
+}
+
+// materialise creates the tree below dir.
+func (t *tnode) materialise(dir string) {
+	p := filepath.Join(dir, t.Name)
+	switch t.Kind {
+	case "file":
+		must(os.MkdirAll(filepath.Dir(p), 0o755))
+		must(os.WriteFile(p, t.content(), 0o644))
+	case "link":
+		must(os.MkdirAll(filepath.Dir(p), 0o755))
+		must(os.Symlink(t.Target, p))
+	case "dir":
+		must(os.MkdirAll(p, 0o755))
+		for _, c := range t.Children {
+			c.materialise(dir)
+		}
+	case "sock":
+		must(os.MkdirAll(filepath.Dir(p), 0o755))
+		// a unix socket: exists, Lstat works, tar.FileInfoHeader refuses it. The path given to
+		// bind must be short, so bind relative to the directory.
+		l, err := net.ListenUnix("unix", &net.UnixAddr{Name: p, Net: "unix"})
+		must(err)
+		l.SetUnlinkOnClose(false)
+		l.Close()
+	case "missing":
+	}
+}
+
+func coqContent(b []byte) string {
+	if len(b) > 48 {
+		same := true
+		for _, x := range b {
+			if x != b[0] {
+				same = false
+				break
+			}
+		}
+		if same {
+			return fmt.Sprintf("(rep %d %d)", len(b), b[0])
+		}
+	}
+	return lib.Str(string(b))
+}
+
+func (t *tnode) coq(outDir string) string {
+	n := lib.Str(filepath.Join(outDir, t.Name))
+	switch t.Kind {
+	case "file":
+		return lib.App("TFile", n, coqContent(t.content()))
+	case "link":
+		return lib.App("TLink", n, lib.Str(t.Target))
+	case "dir":
+		cs := []string{}
+		for _, c := range t.Children {
+			cs = append(cs, c.coq(outDir))
+		}
+		return lib.App("TDir", n, lib.List(cs))
+	case "sock":
+		return lib.App("TSock", n)
+	}
+	return lib.App("TMissing", n)
+}
+
+// ---------------------------------------------------------------------------------------------
+// scenarios
+
+type scenario struct {
+	Cache string   `json:"cache"` // http | cmd
+	Files []*tnode `json:"files"`
+	// http
+	PutFault string `json:"put_fault,omitempty"` // "" | abort | status
+	GetFault string `json:"get_fault,omitempty"` // "" | status | cut-length | cut-chunked | cut-close
+	GetCut   int    `json:"get_cut,omitempty"`   // offset into the stored (gzip) body
+	// cmd
+	StoreStyle string `json:"store_style,omitempty"` // plain | atomic | pipe | pipe-atomic | exec | head-fail | atomic-head-fail
+	StoreHead  int    `json:"store_head,omitempty"`
+	RetrCut    int    `json:"retr_cut"` // -1: whole entry
+	RetrExit   int    `json:"retr_exit,omitempty"`
+	Why        string `json:"why,omitempty"`
+}
+
+type observed struct {
+	Stored      bool              `json:"stored"`
+	StoredLen   int               `json:"stored_len"` // tar bytes held under the key
+	Footer      bool              `json:"footer"`     // ... ending in the two zero blocks
+	Members     []string          `json:"members"`
+	Hit         bool              `json:"hit"`
+	Disk        map[string]string `json:"disk"` // path -> description, for the report
+	diskCoq     []string
+	Complete    bool   `json:"complete"` // every declared output is back, exactly
+	Incomplete  string `json:"incomplete,omitempty"`
+	tarCut      int    // http GetCut: tar bytes that decompress before the error
+	tarCutValid bool
+}
+
+func allHealthy(files []*tnode) bool {
+	for _, f := range files {
+		if !f.healthy() {
+			return false
+		}
+	}
+	return true
+}
+
+// worker: one package (so one output directory), one HTTP server, one command-store directory
+type worker struct {
+	id     int
+	root   string
+	target *core.BuildTarget
+	outDir string
+	store  string
+	srv    *httptest.Server
+	mu     sync.Mutex
+	blobs  map[string][]byte
+	plan   *scenario
+}
+
+func newWorker(root string, id int) *worker {
+	w := &worker{id: id, root: root, blobs: map[string][]byte{}}
+	w.target = core.NewBuildTarget(core.NewBuildLabel(fmt.Sprintf("p%d", id), "t"))
+	w.outDir = w.target.OutDir()
+	w.store = filepath.Join(root, fmt.Sprintf("store%d", id))
+	must(os.MkdirAll(w.store, 0o755))
+	w.srv = httptest.NewServer(http.HandlerFunc(w.serve))
+	return w
+}
+
+func (w *worker) serve(rw http.ResponseWriter, r *http.Request) {
+	w.mu.Lock()
+	sc := w.plan
+	w.mu.Unlock()
+	switch r.Method {
+	case http.MethodPut:
+		switch sc.PutFault {
+		case "abort": // the connection dies while the body is in flight
+			io.CopyN(io.Discard, r.Body, 10)
+			panic(http.ErrAbortHandler)
+		case "status":
+			io.Copy(io.Discard, r.Body)
+			rw.WriteHeader(http.StatusInsufficientStorage)
+			return
+		}
+		b, err := io.ReadAll(r.Body)
+		if err != nil { // a server keeps only bodies it received completely
+			rw.WriteHeader(http.StatusBadRequest)
+			return
+		}
+		w.mu.Lock()
+		w.blobs[r.URL.Path] = b
+		w.mu.Unlock()
+	case http.MethodGet:
+		w.mu.Lock()
+		b, ok := w.blobs[r.URL.Path]
+		w.mu.Unlock()
+		if !ok {
+			rw.WriteHeader(http.StatusNotFound)
+			return
+		}
+		cut := min(sc.GetCut, len(b))
+		switch sc.GetFault {
+		case "status":
+			rw.WriteHeader(http.StatusForbidden)
+			rw.Write([]byte("no"))
+		case "cut-length": // Content-Length promises everything, the connection dies early
+			rw.Header().Set("Content-Length", fmt.Sprint(len(b)))
+			rw.Write(b[:cut])
+			if f, ok := rw.(http.Flusher); ok {
+				f.Flush()
+			}
+			panic(http.ErrAbortHandler)
+		case "cut-chunked":
+			if f, ok := rw.(http.Flusher); ok {
+				rw.Write(b[:cut])
+				f.Flush()
+			}
+			panic(http.ErrAbortHandler)
+		case "cut-close": // close-delimited body: the truncation looks like a clean end of file
+			conn, buf, err := rw.(http.Hijacker).Hijack()
+			must(err)
+			buf.WriteString("HTTP/1.1 200 OK\r\nConnection: close\r\n\r\n")
+			buf.Write(b[:cut])
+			buf.Flush()
+			conn.Close()
+		default:
+			rw.Write(b)
+		}
+	}
+}
+
+func sq(s string) string { return "'" + strings.ReplaceAll(s, "'", `'\''`) + "'" }
+
+func (w *worker) commands(sc *scenario) (string, string) {
+	f := sq(w.store) + `/"$CACHE_KEY"`
+	tmp := sq(w.store) + `/"$CACHE_KEY".tmp`
+	var st string
+	switch sc.StoreStyle {
+	case "plain":
+		st = "cat > " + f
+	case "atomic":
+		st = "cat > " + tmp + " && mv " + tmp + " " + f
+	case "pipe":
+		st = "cat | cat > " + f
+	case "pipe-atomic":
+		st = "cat | (cat > " + tmp + " && mv " + tmp + " " + f + ")"
+	case "exec":
+		st = "exec cat > " + f
+	case "head-fail": // the store command itself fails partway, leaving what it had written
+		st = fmt.Sprintf("head -c %d > %s; cat > /dev/null; exit 1", sc.StoreHead, f)
+	case "atomic-head-fail":
+		st = fmt.Sprintf("head -c %d > %s; cat > /dev/null; exit 1", sc.StoreHead, tmp)
+	default:
+		panic("store style " + sc.StoreStyle)
+	}
+	rt := "cat " + f
+	if sc.RetrCut >= 0 {
+		rt = fmt.Sprintf("test -f %s && head -c %d %s", f, sc.RetrCut, f)
+	}
+	if sc.RetrExit != 0 {
+		rt = fmt.Sprintf("%s; exit %d", rt, sc.RetrExit)
+	}
+	return st, rt
+}
+
+func (w *worker) run(idx int, sc *scenario) *observed {
+	key := []byte(fmt.Sprintf("key-%06d", idx))
+	hexKey := hex.EncodeToString(key)
+	ob := &observed{Disk: map[string]string{}}
+	must(os.RemoveAll(w.outDir))
+	must(os.MkdirAll(w.outDir, 0o755))
+	names := []string{}
+	for _, f := range sc.Files {
+		f.materialise(w.outDir)
+		names = append(names, f.Name)
+	}
+	var c core.Cache
+	var raw []byte // the tar bytes held under the key after the store
+	if sc.Cache == "http" {
+		w.mu.Lock()
+		w.plan = sc
+		w.mu.Unlock()
+		hc, err := cache.VerifNewHTTPCache(w.srv.URL, true, 0, 10*time.Second)
+		must(err)
+		c = hc
+		c.Store(w.target, key, names)
+		w.mu.Lock()
+		gz, ok := w.blobs["/"+hexKey]
+		w.mu.Unlock()
+		if ok {
+			ob.Stored = true
+			zr, err := gzip.NewReader(bytes.NewReader(gz))
+			must(err)
+			raw, err = io.ReadAll(zr)
+			must(err)
+			if strings.HasPrefix(sc.GetFault, "cut") {
+				cut := min(sc.GetCut, len(gz))
+				ob.tarCutValid = true
+				if zr, err := gzip.NewReader(bytes.NewReader(gz[:cut])); err == nil {
+					part, _ := io.ReadAll(zr)
+					ob.tarCut = len(part)
+				}
+			}
+		}
+	} else {
+		st, rt := w.commands(sc)
+		c = cache.VerifNewCmdCache(st, rt)
+		c.Store(w.target, key, names)
+		// the command (or what survives of it) may still be draining its stdin
+		p := filepath.Join(w.store, hexKey)
+		last, stable := int64(-2), 0
+		for i := 0; i < 400 && stable < 3; i++ {
+			time.Sleep(5 * time.Millisecond)
+			sz := int64(-1)
+			if fi, err := os.Stat(p); err == nil {
+				sz = fi.Size()
+			}
+			if _, err := os.Stat(p + ".tmp"); err == nil && sc.StoreStyle != "atomic-head-fail" && sc.StoreStyle != "atomic" {
+				sz = -3 - int64(i) // a rename is still to come
+			}
+			if sz == last {
+				stable++
+			} else {
+				stable = 0
+			}
+			last = sz
+		}
+		if b, err := os.ReadFile(p); err == nil {
+			ob.Stored = true
+			raw = b
+		}
+	}
+	ob.StoredLen = len(raw)
+	ob.Footer = len(raw) >= 1024 && bytes.Equal(raw[len(raw)-1024:], make([]byte, 1024))
+	ob.Members = []string{}
+	tr := tar.NewReader(bytes.NewReader(raw))
+	for {
+		h, err := tr.Next()
+		if err != nil {
+			break
+		}
+		ob.Members = append(ob.Members, h.Name)
+	}
+	// retrieve into an empty output directory
+	must(os.RemoveAll(w.outDir))
+	ob.Hit = c.Retrieve(w.target, key, nil)
+	ob.Complete = allHealthy(sc.Files)
+	for _, f := range sc.Files {
+		f.each(func(t *tnode) {
+			p := filepath.Join(w.outDir, t.Name)
+			fi, err := os.Lstat(p)
+			got, coq := "absent", "None"
+			switch {
+			case err != nil:
+			case fi.Mode()&os.ModeSymlink != 0:
+				l, _ := os.Readlink(p)
+				got, coq = "link:"+l, lib.Some(lib.App("NLink", lib.Str(l)))
+			case fi.IsDir():
+				got, coq = "dir", lib.Some("NDir")
+			case fi.Mode().IsRegular():
+				b, err := os.ReadFile(p)
+				must(err)
+				got, coq = fmt.Sprintf("file:%d:%x", len(b), sum(b)), lib.Some(lib.App("NFile", coqContent(b)))
+			default:
+				got, coq = "other", lib.Some("NDir")
+			}
+			want := ""
+			switch t.Kind {
+			case "file":
+				b := t.content()
+				want = fmt.Sprintf("file:%d:%x", len(b), sum(b))
+			case "link":
+				want = "link:" + t.Target
+			case "dir":
+				want = "dir"
+			default:
+				want = "unreadable"
+			}
+			if got != want && ob.Incomplete == "" {
+				ob.Incomplete = fmt.Sprintf("%s: want %s, have %s", t.Name, want, got)
+			}
+			ob.Disk[t.Name] = got
+			ob.diskCoq = append(ob.diskCoq, lib.Pair(lib.Str(p), coq))
+		})
+	}
+	if ob.Incomplete != "" {
+		ob.Complete = false
+	}
+	must(os.RemoveAll(w.outDir))
+	if sc.Cache == "cmd" {
+		os.Remove(filepath.Join(w.store, hexKey))
+		os.Remove(filepath.Join(w.store, hexKey+".tmp"))
+	}
+	return ob
+}
+
+func sum(b []byte) uint32 { // adler-like, only for the report
+	var a, c uint32 = 1, 0
+	for _, x := range b {
+		a = (a + uint32(x)) % 65521
+		c = (c + a) % 65521
+	}
+	return c<<16 | a
+}
+
+func must(err error) {
 	if err != nil {
 		panic(err)
 	}
-	target := core.NewBuildTarget(core.NewBuildLabel("pkg", "t"))
-	out := target.OutDir()
-	os.MkdirAll(filepath.Join(out, "d"), 0o755)
-	os.WriteFile(filepath.Join(out, "a.txt"), bytes.Repeat([]byte("a"), 300000), 0o644)
-	os.WriteFile(filepath.Join(out, "d/x"), bytes.Repeat([]byte("x"), 700), 0o644)
-	os.WriteFile(filepath.Join(out, "d/y"), []byte(""), 0o644)
-	os.Symlink("x", filepath.Join(out, "d/z"))
-	hc.Store(target, []byte("k1"), []string{"a.txt", "d"})
-	for k, v := range blobs {
-		zr, _ := gzip.NewReader(bytes.NewReader(v))
-		raw, err := io.ReadAll(zr)
-		fmt.Println(k, len(v), len(raw), err)
-		for i := 0; i+512 <= len(raw); i += 512 {
-			fmt.Printf("%d: %q type=%q\n", i, bytes.TrimRight(raw[i:i+100], "\x00"), raw[i+156])
-		}
+}
+
+// ---------------------------------------------------------------------------------------------
+// generators
+
+func file(name string, size int, b byte) *tnode {
+	return &tnode{Kind: "file", Name: name, Size: size, Byte: b}
+}
+func text(name, s string) *tnode  { return &tnode{Kind: "file", Name: name, Text: s} }
+func link(name, to string) *tnode { return &tnode{Kind: "link", Name: name, Target: to} }
+func dir(name string, ch ...*tnode) *tnode {
+	sort.Slice(ch, func(i, j int) bool { return ch[i].Name < ch[j].Name })
+	return &tnode{Kind: "dir", Name: name, Children: ch}
+}
+func missing(name string) *tnode { return &tnode{Kind: "missing", Name: name} }
+func sock(name string) *tnode    { return &tnode{Kind: "sock", Name: name} }
+
+var sizes = []int{0, 1, 3, 100, 511, 512, 513, 700, 1024, 1500}
+
+func fixedSets() [][]*tnode {
+	return [][]*tnode{
+		{text("a.txt", "a"), text("c.txt", "c")}, // with b.txt missing in between: the pre-fix witness (corpus/C13)
+		{text("only.txt", "hello")},
+		{file("e", 0, 0)},
+		{file("b512", 512, 'x'), file("b511", 511, 'y'), file("b513", 513, 'z')},
+		{dir("d", text("d/x", "xx"), file("d/y", 0, 0), link("d/z", "x")), text("a.txt", "aaa")},
+		{dir("empty")},
+		{link("dangling", "nowhere"), link("up", "../t"), text("z", "zz")},
+		{dir("n", dir("n/m", text("n/m/deep", "deep"), dir("n/m/e")), text("n/top", "t")), file("k", 1024, 'k')},
+		{text("sub/x.txt", "in a subdirectory that is not itself an output"), text("y", "y")},
+		{},
 	}
-	// cmd
-	store := filepath.Join(dir, "store")
-	os.MkdirAll(store, 0o755)
-	for _, sc := range []string{
-		`exec cat > "` + store + `/$CACHE_KEY"`,
-		`exec dd bs=512 status=none > "` + store + `/$CACHE_KEY"`,
-		`cat > "` + store + `/$CACHE_KEY.tmp" && mv "` + store + `/$CACHE_KEY.tmp" "` + store + `/$CACHE_KEY"`,
-		`cat | cat > "` + store + `/$CACHE_KEY"`,
-		`cat | (cat > "` + store + `/$CACHE_KEY.tmp" && mv "` + store + `/$CACHE_KEY.tmp" "` + store + `/$CACHE_KEY")`,
-	} {
-		for trial := 0; trial < 12; trial++ {
-			os.RemoveAll(store)
-			os.MkdirAll(store, 0o755)
-			cc := cache.VerifNewCmdCache(sc, `cat "`+store+`/$CACHE_KEY"`)
-			t0 := time.Now()
-			cc.Store(target, []byte("k2"), []string{"a.txt", "d", "missing", "a.txt"})
-			el := time.Since(t0)
-			time.Sleep(100 * time.Millisecond)
-			es, _ := os.ReadDir(store)
-			desc := ""
-			for _, e := range es {
-				i, _ := e.Info()
-				desc += fmt.Sprintf("%s:%d ", e.Name(), i.Size())
+}
+
+func randomSet(r *lib.Rng) []*tnode {
+	n := r.Range(1, 5)
+	out := []*tnode{}
+	for i := 0; i < n; i++ {
+		name := fmt.Sprintf("o%d", i)
+		switch r.Intn(6) {
+		case 0, 1, 2:
+			out = append(out, file(name, lib.Pick(r, sizes), byte('a'+r.Intn(26))))
+		case 3:
+			out = append(out, link(name, lib.Pick(r, []string{"o0", "nowhere", "."})))
+		default:
+			ch := []*tnode{}
+			for j, m := 0, r.Intn(4); j < m; j++ {
+				cn := fmt.Sprintf("%s/c%d", name, j)
+				switch r.Intn(5) {
+				case 0:
+					ch = append(ch, link(cn, "c0"))
+				case 1:
+					ch = append(ch, dir(cn, file(cn+"/g", lib.Pick(r, sizes), 'g')))
+				default:
+					ch = append(ch, file(cn, lib.Pick(r, sizes), byte('A'+r.Intn(26))))
+				}
 			}
-			os.Rename(out, out+".bak")
-			hit := cc.Retrieve(target, []byte("k2"), nil)
-			_, ea := os.Stat(filepath.Join(out, "a.txt"))
-			_, ed := os.Stat(filepath.Join(out, "d/x"))
-			os.RemoveAll(out)
-			os.Rename(out+".bak", out)
-			fmt.Printf("%-60.60s store=%v [%s] hit=%v a=%v d/x=%v\n", sc[len(sc)-40:], el, desc, hit, ea == nil, ed == nil)
+			out = append(out, dir(name, ch...))
 		}
 	}
+	return out
+}
+
+func cloneSet(s []*tnode) []*tnode {
+	out := []*tnode{}
+	for _, t := range s {
+		out = append(out, t.clone())
+	}
+	return out
+}
+
+// faulted returns every way of injecting one read fault into the set: a declared output that
+// does not exist at each position of the list, each output replaced by a missing one, and an
+// unreadable member (a socket) at each position inside each directory output.
+func faulted(s []*tnode) [][]*tnode {
+	out := [][]*tnode{}
+	for i := 0; i <= len(s); i++ {
+		c := cloneSet(s)
+		c = append(c[:i], append([]*tnode{missing("gone.txt")}, c[i:]...)...)
+		out = append(out, c)
+	}
+	for i := range s {
+		c := cloneSet(s)
+		c[i] = missing(s[i].Name)
+		out = append(out, c)
+	}
+	for i := range s {
+		if s[i].Kind != "dir" {
+			continue
+		}
+		for j := 0; j <= len(s[i].Children); j++ {
+			c := cloneSet(s)
+			ch := c[i].Children
+			// a name that sorts at position j
+			var name string
+			switch {
+			case j == 0:
+				name = c[i].Name + "/!s"
+			default:
+				name = ch[j-1].Name + "~s"
+			}
+			c[i].Children = append(ch[:j:j], append([]*tnode{sock(name)}, ch[j:]...)...)
+			out = append(out, c)
+		}
+	}
+	return out
+}
+
+func setSize(s []*tnode) int {
+	n := 0
+	for _, t := range s {
+		t.each(func(*tnode) { n++ })
+	}
+	return n
+}
+
+// ---------------------------------------------------------------------------------------------
+
+func (sc *scenario) storeFaulty() bool {
+	return !allHealthy(sc.Files) || sc.PutFault != "" || sc.StoreStyle == "head-fail" || sc.StoreStyle == "atomic-head-fail"
+}
+func (sc *scenario) retrieveFaulty() bool {
+	return sc.GetFault != "" || sc.RetrCut >= 0 || sc.RetrExit != 0
+}
+
+func (sc *scenario) coq(w *worker, ob *observed) string {
+	files := []string{}
+	for _, f := range sc.Files {
+		files = append(files, f.coq(w.outDir))
+	}
+	if sc.Cache == "http" {
+		g := "GetOk"
+		switch {
+		case sc.GetFault == "status":
+			g = "GetStatus"
+		case strings.HasPrefix(sc.GetFault, "cut"):
+			g = lib.App("GetCut", lib.N(uint64(ob.tarCut)))
+		}
+		return lib.App("CHttp", lib.List(files), lib.Bool(sc.PutFault == ""), g,
+			lib.Bool(ob.Stored), lib.N(uint64(ob.StoredLen)), lib.StrList(ob.Members), lib.Bool(ob.Hit), lib.List(ob.diskCoq))
+	}
+	whole := allHealthy(sc.Files) && (sc.StoreStyle == "plain" || sc.StoreStyle == "atomic" || sc.StoreStyle == "pipe" ||
+		sc.StoreStyle == "pipe-atomic" || sc.StoreStyle == "exec")
+	return lib.App("CCmd", lib.List(files), lib.Opt(ob.Stored, lib.N(uint64(ob.StoredLen))), lib.Bool(whole),
+		lib.Opt(sc.RetrCut >= 0, lib.N(uint64(max(sc.RetrCut, 0)))), lib.Bool(sc.RetrExit == 0),
+		lib.StrList(ob.Members), lib.Bool(ob.Hit), lib.List(ob.diskCoq))
+}
+
+func main() {
+	gologging.SetLevel(gologging.CRITICAL, "plz")
+	lib.Main("C13", func(c *lib.Ctx) {
+		c.Model("From PlzV Require Import Model.C13.", "C13.case", "C13.check")
+		c.Rule("output sets (10 fixed adversarial + random: 1-5 outputs, files of sizes around the 512-byte tar block, symlinks, nested directories) " +
+			"x every read-fault position (a missing output inserted at / substituted for each list position, an unarchivable socket at each position inside each directory output) " +
+			"x cache (httpCache against an in-process server; cmdCache with plain, tmp+mv, pipeline, pipeline+tmp+mv, exec'd and failing store commands) " +
+			"x transport faults (PUT aborted mid-body / refused; GET body cut at sampled offsets with Content-Length, chunked and close-delimited framing; non-200 status; " +
+			"retrieve command output cut at sampled offsets, non-zero exit). distinct = distinct (tree, cache, fault) triples; non-trivial = at least one fault injected and at least one readable output")
+
+		root, err := os.MkdirTemp("", "c13-")
+		must(err)
+		defer os.RemoveAll(root)
+		must(os.Chdir(root))
+
+		var scs []*scenario
+		var one scenario
+		if c.ReadReplay(&one) {
+			scs = []*scenario{&one}
+		} else {
+			scs = generate(c)
+		}
+
+		nw := 8
+		workers := make([]*worker, nw)
+		for i := range workers {
+			workers[i] = newWorker(root, i)
+			defer workers[i].srv.Close()
+		}
+		obs := make([]*observed, len(scs))
+		var wg sync.WaitGroup
+		for wi := range workers {
+			wg.Add(1)
+			go func(wi int) {
+				defer wg.Done()
+				for i := wi; i < len(scs); i += nw {
+					obs[i] = workers[wi].run(i, scs[i])
+				}
+			}(wi)
+		}
+		wg.Wait()
+
+		for i, sc := range scs {
+			ob := obs[i]
+			w := workers[i%nw]
+			js := map[string]any{"scenario": sc, "observed": ob}
+			faulty := sc.storeFaulty() || sc.retrieveFaulty()
+			readable := false
+			for _, f := range sc.Files {
+				f.each(func(t *tnode) { readable = readable || t.Kind == "file" || t.Kind == "link" })
+			}
+			key := fmt.Sprintf("%v", mustJSON(sc))
+			c.Case(sc.coq(w, ob), js, key, faulty && readable)
+			c.Hist("cache", sc.Cache)
+			c.Hist("store_fault", storeFaultName(sc))
+			c.Hist("retrieve_fault", retrFaultName(sc))
+			c.HistN("tree_nodes", setSize(sc.Files))
+			c.Hist("outcome", outcome(ob))
+
+			// ---- the property, directly on the implementation ----
+			c.Oracle()
+			if ob.Hit && !ob.Complete {
+				class := "hit-with-incomplete-outputs"
+				switch {
+				case sc.Cache == "http" && !allHealthy(sc.Files):
+					class = "http-hit-after-read-fault"
+				case sc.Cache == "http" && sc.PutFault != "":
+					class = "http-hit-after-put-fault"
+				case sc.Cache == "http" && sc.GetFault != "":
+					class = "http-hit-on-failed-get"
+				case sc.Cache == "cmd" && !allHealthy(sc.Files) && ob.Footer && !sc.retrieveFaulty() &&
+					sc.StoreStyle != "head-fail" && sc.StoreStyle != "atomic-head-fail":
+					// the store command received, after the read error, an archive that is closed
+					// with the end-of-archive marker and a clean end of input
+					class = "cmd-read-fault-archive-finished-with-footer"
+				case sc.Cache == "cmd" && sc.retrieveFaulty():
+					class = "cmd-hit-on-failed-retrieve"
+				case sc.Cache == "cmd":
+					class = "cmd-hit-after-failed-store"
+				}
+				c.Fail(class, fmt.Sprintf("%s cache: Retrieve reports a hit but %s (store fault: %s, retrieve fault: %s)",
+					sc.Cache, ob.Incomplete+unreadableNote(sc), storeFaultName(sc), retrFaultName(sc)), js)
+			}
+			c.Oracle()
+			if ob.Hit && sc.Cache == "cmd" && sc.RetrExit != 0 {
+				c.Fail("cmd-hit-despite-failed-retrieve-command", "the retrieve command exited non-zero and Retrieve reports a hit", js)
+			}
+			c.Oracle()
+			if ob.Hit && sc.Cache == "cmd" && sc.RetrCut >= 0 && sc.RetrCut < ob.StoredLen {
+				c.Fail("cmd-hit-on-truncated-output", "the retrieve command's output ended before the end of the entry and Retrieve reports a hit", js)
+			}
+			c.Oracle()
+			if ob.Stored && sc.Cache == "http" && (sc.PutFault != "" || !allHealthy(sc.Files)) {
+				c.Fail("http-entry-left-by-failed-store", "the server holds an entry after a store that failed ("+storeFaultName(sc)+")", js)
+			}
+		}
+	})
+}
+
+func unreadableNote(sc *scenario) string {
+	if allHealthy(sc.Files) {
+		return ""
+	}
+	return " [an output could not be read during the store]"
+}
+
+func mustJSON(v any) string {
+	var b strings.Builder
+	fmt.Fprintf(&b, "%+v", v)
+	if sc, ok := v.(*scenario); ok {
+		for _, f := range sc.Files {
+			f.each(func(t *tnode) { fmt.Fprintf(&b, "|%s:%s:%d:%d:%s:%s", t.Kind, t.Name, t.Size, t.Byte, t.Text, t.Target) })
+		}
+	}
+	return b.String()
+}
+
+func storeFaultName(sc *scenario) string {
+	switch {
+	case !allHealthy(sc.Files):
+		k := "read-fault"
+		for _, f := range sc.Files {
+			f.each(func(t *tnode) {
+				if t.Kind == "sock" {
+					k = "read-fault-inside-dir"
+				}
+			})
+		}
+		if sc.Cache == "cmd" {
+			return k + "/" + sc.StoreStyle
+		}
+		return k
+	case sc.PutFault != "":
+		return "put-" + sc.PutFault
+	case sc.StoreStyle == "head-fail" || sc.StoreStyle == "atomic-head-fail":
+		return "command-" + sc.StoreStyle
+	}
+	return "none"
+}
+
+func retrFaultName(sc *scenario) string {
+	switch {
+	case sc.GetFault != "":
+		return "get-" + sc.GetFault
+	case sc.RetrCut >= 0 && sc.RetrExit != 0:
+		return "output-cut+exit"
+	case sc.RetrCut >= 0:
+		return "output-cut"
+	case sc.RetrExit != 0:
+		return "exit"
+	}
+	return "none"
+}
+
+func outcome(ob *observed) string {
+	switch {
+	case ob.Hit && ob.Complete:
+		return "hit-complete"
+	case ob.Hit:
+		return "hit-INCOMPLETE"
+	}
+	return "miss"
+}
+
+// tarLen is the length of the archive the real writer produces for a healthy set, computed
+// from the tar layout (header block + content padded to 512 per member, two zero blocks).
+func tarLen(s []*tnode) int {
+	n := 1024
+	for _, t := range s {
+		t.each(func(t *tnode) {
+			n += 512
+			if t.Kind == "file" {
+				n += (len(t.content()) + 511) / 512 * 512
+			}
+		})
+	}
+	return n
+}
+
+func cutOffsets(r *lib.Rng, n, count int, every bool) []int {
+	set := map[int]bool{}
+	if every {
+		for i := 0; i < n; i++ {
+			set[i] = true
+		}
+	} else {
+		for _, x := range []int{0, 1, 9, 10, 11, 18, n / 2, n - 9, n - 8, n - 7, n - 1} {
+			if x >= 0 && x < n {
+				set[x] = true
+			}
+		}
+		for i := 0; i < count; i++ {
+			set[r.Intn(max(n, 1))] = true
+		}
+	}
+	out := []int{}
+	for k := range set {
+		out = append(out, k)
+	}
+	sort.Ints(out)
+	return out
+}
+
+func blockOffsets(r *lib.Rng, n, count int, dense bool) []int {
+	set := map[int]bool{0: true, 1: true, n - 1: true, n - 512: true, n - 513: true, n - 1024: true, n - 1025: true, n - 511: true}
+	if dense {
+		for b := 0; b <= n; b += 64 {
+			set[b] = true
+		}
+	}
+	for b := 0; b <= n; b += 512 {
+		if dense || r.Chance(1, 2) {
+			set[b], set[b+1], set[b-1] = true, true, true
+		}
+	}
+	for i := 0; i < count; i++ {
+		set[r.Intn(max(n, 1))] = true
+	}
+	out := []int{}
+	for k := range set {
+		if k >= 0 && k < n {
+			out = append(out, k)
+		}
+	}
+	sort.Ints(out)
+	return out
+}
+
+func generate(c *lib.Ctx) []*scenario {
+	r := c.Rng.Fork()
+	var scs []*scenario
+	add := func(sc *scenario) { scs = append(scs, sc) }
+	sets := fixedSets()
+	for i, n := 0, c.Scale(12, 120); i < n; i++ {
+		sets = append(sets, randomSet(r))
+	}
+	getFaults := []string{"cut-length", "cut-chunked", "cut-close"}
+	styles := []string{"plain", "atomic", "pipe", "pipe-atomic", "exec"}
+
+	// 0. the input that demonstrated the defect fixed by dde3306 (corpus/C13), on both caches
+	witness := []*tnode{text("a.txt", "a"), missing("b.txt"), text("c.txt", "c")}
+	add(&scenario{Cache: "http", Files: cloneSet(witness), RetrCut: -1, Why: "corpus: http store with an unreadable output"})
+	for _, st := range styles {
+		add(&scenario{Cache: "cmd", Files: cloneSet(witness), StoreStyle: st, RetrCut: -1, Why: "corpus witness through the command cache"})
+	}
+	// 0b. the same with enough data in front of the fault for the store command to be running
+	// (and, for a pipeline, to have started its children) when the fault is hit
+	big := []*tnode{file("big.bin", 300000, 'a'), missing("b.txt"), text("c.txt", "c")}
+	add(&scenario{Cache: "http", Files: cloneSet(big), RetrCut: -1, Why: "read fault after 300 kB"})
+	for _, st := range styles {
+		for k := 0; k < c.Scale(1, 3); k++ {
+			add(&scenario{Cache: "cmd", Files: cloneSet(big), StoreStyle: st, RetrCut: -1, Why: "read fault after 300 kB: the store command is running"})
+		}
+	}
+
+	for si, s := range sets {
+		quickFull := si < len(fixedSets())
+		// 1. HTTP: every read-fault position
+		for _, f := range faulted(s) {
+			add(&scenario{Cache: "http", Files: f, RetrCut: -1})
+		}
+		// 2. HTTP: healthy store, then every kind of transport fault
+		add(&scenario{Cache: "http", Files: cloneSet(s), RetrCut: -1})
+		add(&scenario{Cache: "http", Files: cloneSet(s), PutFault: "abort", RetrCut: -1})
+		add(&scenario{Cache: "http", Files: cloneSet(s), PutFault: "status", RetrCut: -1})
+		add(&scenario{Cache: "http", Files: cloneSet(s), GetFault: "status", RetrCut: -1})
+		gzGuess := 60 + 12*setSize(s) // the real length is only known after the store; offsets beyond it mean "no cut"
+		for _, off := range cutOffsets(r, gzGuess+40, c.Scale(2, 10), c.Thor && quickFull) {
+			add(&scenario{Cache: "http", Files: cloneSet(s), GetFault: lib.Pick(r, getFaults), GetCut: off, RetrCut: -1})
+		}
+		// 3. command cache: read faults through every store style (all positions for the fixed sets,
+		// a sample for the random ones in the quick tier)
+		fs := faulted(s)
+		for fi, f := range fs {
+			if !quickFull && !c.Thor && fi%3 != si%3 {
+				continue
+			}
+			st := styles[(fi+si)%len(styles)]
+			add(&scenario{Cache: "cmd", Files: f, StoreStyle: st, RetrCut: -1})
+			if c.Thor {
+				for _, st2 := range styles {
+					if st2 != st {
+						add(&scenario{Cache: "cmd", Files: cloneSet(f), StoreStyle: st2, RetrCut: -1})
+					}
+				}
+			}
+		}
+		// 4. command cache: healthy store, faults in the retrieve command; failing store commands
+		n := tarLen(s)
+		add(&scenario{Cache: "cmd", Files: cloneSet(s), StoreStyle: lib.Pick(r, styles), RetrCut: -1})
+		add(&scenario{Cache: "cmd", Files: cloneSet(s), StoreStyle: "plain", RetrCut: -1, RetrExit: 1})
+		for _, off := range blockOffsets(r, n, c.Scale(1, 6), c.Thor && quickFull) {
+			if !c.Thor && !quickFull && r.Chance(2, 3) {
+				continue
+			}
+			add(&scenario{Cache: "cmd", Files: cloneSet(s), StoreStyle: "plain", RetrCut: off, RetrExit: lib.Pick(r, []int{0, 0, 0, 2})})
+		}
+		for _, off := range blockOffsets(r, n, 1, false) {
+			if !c.Thor && r.Chance(3, 4) {
+				continue
+			}
+			add(&scenario{Cache: "cmd", Files: cloneSet(s), StoreStyle: "head-fail", StoreHead: off, RetrCut: -1})
+		}
+		add(&scenario{Cache: "cmd", Files: cloneSet(s), StoreStyle: "head-fail", StoreHead: n + 100, RetrCut: -1})
+		add(&scenario{Cache: "cmd", Files: cloneSet(s), StoreStyle: "atomic-head-fail", StoreHead: n / 2, RetrCut: -1})
+	}
+	c.Note("%d output sets (%d fixed), %d scenarios", len(sets), len(fixedSets()), len(scs))
+	return scs
 }
